@@ -83,7 +83,9 @@ def run_tlc(scratch, name, module_text, cfg_text, specs, timeout_s, workers=16, 
     out_path = os.path.join(d, out_name or "tlc.out")
     cmd = ["tlc", "-workers", str(workers), "-metadir", os.path.join(d, "meta"), "-nowarning"] + list(extra_args) + ["MC.tla"]
     env = dict(os.environ)
-    env["JAVA_TOOL_OPTIONS"] = (env.get("JAVA_TOOL_OPTIONS", "") + " -Xss64m").strip()
+    jtmp = os.path.join(d, "jtmp")  # TLC leaves an empty tlc-<n> directory in java.io.tmpdir on every start
+    os.makedirs(jtmp, exist_ok=True)
+    env["JAVA_TOOL_OPTIONS"] = (env.get("JAVA_TOOL_OPTIONS", "") + " -Xss64m -Djava.io.tmpdir=" + jtmp).strip()
     if heap:
         env["JAVA_TOOL_OPTIONS"] = (env.get("JAVA_TOOL_OPTIONS", "") + " -Xmx%s" % heap).strip()
     t0 = time.time()
@@ -95,6 +97,7 @@ def run_tlc(scratch, name, module_text, cfg_text, specs, timeout_s, workers=16, 
     wall = time.time() - t0
     shutil.rmtree(os.path.join(d, "meta"), ignore_errors=True)
     shutil.rmtree(os.path.join(d, "states"), ignore_errors=True)
+    shutil.rmtree(jtmp, ignore_errors=True)
     tail = tail_nonjson(out_path)
     m = None
     for m in TLC_STATS.finditer(tail):
